@@ -306,7 +306,7 @@ func c19Judge(c *fw.Ctx, cs c19Case) {
 
 func runC19(c *fw.Ctx) {
 	r := c.Rand(uint64(1900 + c.Shard))
-	n := c.Pick(32, 5000) / c.NShards
+	n := c.Pick(32, 500) / c.NShards
 	if n < 2 {
 		n = 2
 	}
